@@ -42,6 +42,9 @@ type outcome struct {
 	Msg     string `json:"msg"`
 	// every location.Error of the chain, each against the file it names
 	Locs []locRec `json:"locs"`
+	// OnPath: some named position is the start of a node on the way from the root to the
+	// place of the fault or below it (computed by the parent process, which knows the place)
+	OnPath bool `json:"onpath"`
 }
 
 // locRec is one position a diagnostic names: whether the named file belongs to the
@@ -78,9 +81,11 @@ func collectLocs(err error, files map[string][]byte) (out []locRec) {
 	starts := map[string]map[[2]int]bool{}
 	for e := err; e != nil; e = errors.Unwrap(e) {
 		le, ok := e.(*location.Error)
-		if !ok || le.Pos.Line == 0 {
+		if !ok {
 			continue
 		}
+		// a location.Error with line 0 is printed as "at <file>:0": a reported position that
+		// exists in no file; it is judged like any other
 		rec := locRec{File: le.File.HumanName(), Line: le.Pos.Line, Col: le.Pos.Column}
 		var data []byte
 		if len(files) == 1 {
@@ -323,6 +328,7 @@ type site struct {
 	idx    int // index of the value in parent.Content (mapping: the value slot; sequence: the item)
 	kind   string
 	path   string
+	segs   []string
 }
 
 func kindOf(n *yaml.Node) string {
@@ -345,25 +351,85 @@ func kindOf(n *yaml.Node) string {
 	return "other"
 }
 
-func collect(n *yaml.Node, path string, out *[]site) {
+func collect(n *yaml.Node, path string, out *[]site) { collectSegs(n, path, nil, out) }
+
+func collectSegs(n *yaml.Node, path string, segs []string, out *[]site) {
+	ext := func(s string) []string { return append(append([]string{}, segs...), s) }
 	switch n.Kind {
 	case yaml.DocumentNode:
 		for _, c := range n.Content {
-			collect(c, path, out)
+			collectSegs(c, path, segs, out)
 		}
 	case yaml.MappingNode:
 		for i := 0; i+1 < len(n.Content); i += 2 {
 			p := path + "/" + n.Content[i].Value
-			*out = append(*out, site{n, i + 1, kindOf(n.Content[i+1]), p})
-			collect(n.Content[i+1], p, out)
+			*out = append(*out, site{n, i + 1, kindOf(n.Content[i+1]), p, ext(n.Content[i].Value)})
+			collectSegs(n.Content[i+1], p, ext(n.Content[i].Value), out)
 		}
 	case yaml.SequenceNode:
 		for i, c := range n.Content {
 			p := path + "/" + strconv.Itoa(i)
-			*out = append(*out, site{n, i, kindOf(c), p})
-			collect(c, p, out)
+			*out = append(*out, site{n, i, kindOf(c), p, ext(strconv.Itoa(i))})
+			collectSegs(c, p, ext(strconv.Itoa(i)), out)
 		}
 	}
+}
+
+// focusPositions lists the starts of the nodes on the way from the root of the document
+// to the node segs leads to (keys and values) and of every node below it; when the way
+// ends early (the node was deleted or an enclosing node changed kind) the deepest node
+// reached stands for it. ok=false when the text cannot be walked (aliases, not YAML).
+func focusPositions(data []byte, segs []string) (map[[2]int]bool, bool) {
+	var doc yaml.Node
+	if yaml.Unmarshal(data, &doc) != nil || doc.Kind != yaml.DocumentNode || len(doc.Content) != 1 {
+		return nil, false
+	}
+	out := map[[2]int]bool{}
+	cur := doc.Content[0]
+	out[[2]int{cur.Line, cur.Column}] = true
+walk:
+	for _, sg := range segs {
+		switch cur.Kind {
+		case yaml.MappingNode:
+			for i := 0; i+1 < len(cur.Content); i += 2 {
+				if cur.Content[i].Value == sg {
+					out[[2]int{cur.Content[i].Line, cur.Content[i].Column}] = true
+					cur = cur.Content[i+1]
+					out[[2]int{cur.Line, cur.Column}] = true
+					continue walk
+				}
+			}
+			break walk
+		case yaml.SequenceNode:
+			i, err := strconv.Atoi(sg)
+			if err != nil || i < 0 || i >= len(cur.Content) {
+				break walk
+			}
+			cur = cur.Content[i]
+			out[[2]int{cur.Line, cur.Column}] = true
+		case yaml.AliasNode:
+			return nil, false
+		default:
+			break walk
+		}
+	}
+	var below func(n *yaml.Node) bool
+	below = func(n *yaml.Node) bool {
+		if n.Kind == yaml.AliasNode {
+			return false
+		}
+		out[[2]int{n.Line, n.Column}] = true
+		for _, c := range n.Content {
+			if !below(c) {
+				return false
+			}
+		}
+		return true
+	}
+	if !below(cur) {
+		return nil, false
+	}
+	return out, true
 }
 
 func scalar(tag, v string) *yaml.Node { return &yaml.Node{Kind: yaml.ScalarNode, Tag: tag, Value: v} }
@@ -482,6 +548,41 @@ func apply(op string, s site, root *yaml.Node) bool {
 			return false
 		}
 		set(refTo("VerifCyc"))
+	case "unknown_name":
+		// a place that refers to a declared thing by its name now names an undeclared one
+		n := len(s.segs)
+		switch {
+		case isMap && n >= 3 && s.segs[n-3] == "security" && cur.Kind == yaml.SequenceNode:
+			// a security requirement: {scheme: [scopes]}
+			k := *p.Content[s.idx-1]
+			k.Value += "Undeclared"
+			p.Content[s.idx-1] = &k
+			s.segs[n-1] = k.Value
+		case isMap && n >= 3 && s.segs[n-3] == "links" && s.segs[n-1] == "operationId" && cur.Kind == yaml.ScalarNode:
+			set(scalar("!!str", cur.Value+"Undeclared"))
+		case isMap && n >= 3 && s.segs[n-2] == "mapping" && s.segs[n-3] == "discriminator" && cur.Kind == yaml.ScalarNode:
+			set(scalar("!!str", cur.Value+"Undeclared"))
+		default:
+			return false
+		}
+	case "wrong_enum_value":
+		// an element of an enum becomes a value of another type
+		n := len(s.segs)
+		if isMap || n < 2 || s.segs[n-2] != "enum" || cur.Kind != yaml.ScalarNode || cur.Tag == "!!null" {
+			return false
+		}
+		if cur.Tag == "!!str" {
+			set(scalar("!!int", "42"))
+		} else {
+			set(scalar("!!str", "forty-two"))
+		}
+	case "odd_string":
+		// a string value becomes a string that names are rarely made of
+		if cur.Kind != yaml.ScalarNode || cur.Tag != "!!str" {
+			return false
+		}
+		odd := []string{"\uFFFDa", "", "a b", "-", "\u00e9", "0", "a/b", "%", "\u2028x", "type"}
+		set(&yaml.Node{Kind: yaml.ScalarNode, Tag: "!!str", Style: yaml.DoubleQuotedStyle, Value: odd[(len(s.path)+len(cur.Value))%len(odd)]})
 	case "tuple_null", "tuple_scalar":
 		if !isMap || p.Content[s.idx-1].Value != "items" {
 			return false
@@ -545,7 +646,7 @@ func addSchema(root *yaml.Node, name string, body *yaml.Node) bool {
 }
 
 var ops = []string{"delete", "retype_scalar", "retype_map", "retype_seq", "null", "break_escape", "dangling_ref", "cyclic_ref", "duplicate_key", "big_number", "negative_number", "nest_deep",
-	"cyclic_oneof", "cyclic_anyof", "cyclic_allof", "cyclic_items", "cyclic_required", "cyclic_addl", "cyclic_pair", "tuple_null", "tuple_scalar"}
+	"cyclic_oneof", "cyclic_anyof", "cyclic_allof", "cyclic_items", "cyclic_required", "cyclic_addl", "cyclic_pair", "tuple_null", "tuple_scalar", "unknown_name", "wrong_enum_value", "odd_string"}
 
 // toJSON spells a node tree as JSON text; ok=false when it has no JSON spelling.
 func toJSON(n *yaml.Node, b *strings.Builder, depth int) bool {
@@ -615,6 +716,7 @@ func toJSON(n *yaml.Node, b *strings.Builder, depth int) bool {
 type fcase struct {
 	spec, op, kind, path string
 	yamlFile, jsonFile   string
+	segs                 []string // the way to the place of the fault in the mutated document
 }
 
 func corpusFiles() []string {
@@ -635,8 +737,8 @@ func corpusFiles() []string {
 
 // Check is the C11 entry point.
 func Check(r *core.Run) error {
-	r.SetRule("spec/GenOutcome.tla admits only ok / error as terminal outcomes (no Panic, Hang, StackOverflow or OutOfMemory transition exists), demands that every position a diagnostic names is in a file of the document set, exists in it and is the start of one of its nodes, that the unmutated control documents are accepted, and that YAML and JSON spellings of the same data end alike. " +
-		"Fault enumeration: 21 structural operators (delete, retype to scalar/map/seq, null, broken escapes in a path key, dangling $ref, self-referring component, component containing itself through oneOf/anyOf/allOf/items/required property/additionalProperties/two-component ring placed at schema positions, tuple items with null/scalar element, duplicate key, out-of-range and negative numbers, 1000-deep nesting) are applied at eligible nodes of every small corpus document " +
+	r.SetRule("spec/GenOutcome.tla admits only ok / error as terminal outcomes (no Panic, Hang, StackOverflow or OutOfMemory transition exists), demands that every position a diagnostic names is in a file of the document set, exists in it and is the start of one of its nodes, that for faults which make the node itself name something undeclared (dangling $ref, broken escape in a path key, undeclared security scheme / link operation / discriminator target) some named position lies on the way from the root to that node or below it, that the unmutated control documents are accepted, and that YAML and JSON spellings of the same data end alike. " +
+		"Fault enumeration: 24 structural operators (delete, retype to scalar/map/seq, null, broken escapes in a path key, dangling $ref, self-referring component, component containing itself through oneOf/anyOf/allOf/items/required property/additionalProperties/two-component ring placed at schema positions, tuple items with null/scalar element, undeclared names at referring places, enum elements of another type, unusual strings, duplicate key, out-of-range and negative numbers, 1000-deep nesting) are applied at eligible nodes of every small corpus document " +
 		"(quick: a seeded sample per operator and document; thorough: every eligible node), at every eligible node of a host document and of the referenced file of a two-file set (both tiers), plus seeded byte-level mutations; each mutated document is spelled as YAML and, where expressible, JSON and run through ogen.Parse -> gen.NewGenerator -> WriteSource in a child process under a per-case watchdog and an address-space limit; TLC judges every case. " +
 		"Non-trivial = the fault changed the outcome or produced a diagnostic; distinct = (operator, node kind, outcome class, located).")
 	perOp, nBytes := 3, 6
@@ -644,7 +746,7 @@ func Check(r *core.Run) error {
 		perOp, nBytes = 1<<30, 150
 	}
 	res, err := tlc.Run(nil, tlc.Options{SpecDir: obs.SpecDir, Module: "GenOutcomeMC", Timeout: 5 * time.Minute, Scratch: r.Scratch, Workers: 2,
-		Cfg: tlc.Cfg("CONSTANTS NLines = 3", " LineLen = 3", "INIT Init", "NEXT Next", "INVARIANTS Total Control", "CHECK_DEADLOCK FALSE")})
+		Cfg: tlc.Cfg("CONSTANTS NLines = 3", " LineLen = 3", "INIT Init", "NEXT Next", "INVARIANTS Total Control Attrib", "CHECK_DEADLOCK FALSE")})
 	if err != nil {
 		return err
 	}
@@ -707,7 +809,11 @@ func Check(r *core.Run) error {
 				if si >= len(fresh) || !apply(op, fresh[si], &root) {
 					continue
 				}
-				if emit(fcase{spec: name, op: op, kind: fresh[si].kind, path: fresh[si].path}, &root) {
+				segs := fresh[si].segs
+				if op == "break_escape" && len(segs) > 0 {
+					segs = segs[:len(segs)-1] // the key itself changed: its mapping stands for it
+				}
+				if emit(fcase{spec: name, op: op, kind: fresh[si].kind, path: fresh[si].path, segs: segs}, &root) {
 					applied++
 				}
 			}
@@ -785,6 +891,21 @@ func Check(r *core.Run) error {
 		add(fcase{spec: "host-all", op: "none", kind: "doc"}, []byte(hostAll), nil)
 		nDeepDocs = maxDeepDocs - 1
 		enumerate("host-all", []byte(hostAll), 1<<30, func(c fcase, root *yaml.Node) bool {
+			y, err := yaml.Marshal(root)
+			if err != nil {
+				return false
+			}
+			var jb strings.Builder
+			var j []byte
+			if toJSON(root, &jb, 0) {
+				j = []byte(jb.String())
+			}
+			add(c, y, j)
+			return true
+		})
+		add(fcase{spec: "host-more", op: "none", kind: "doc"}, []byte(hostMore), nil)
+		nDeepDocs = maxDeepDocs
+		enumerate("host-more", []byte(hostMore), 1<<30, func(c fcase, root *yaml.Node) bool {
 			y, err := yaml.Marshal(root)
 			if err != nil {
 				return false
@@ -911,11 +1032,58 @@ func Check(r *core.Run) error {
 	var lines [][]byte
 	var desc []string
 	nLocs, nExtLocs := 0, 0
+	// onPath relates the named positions to the place of the fault
+	onPath := func(c fcase, file string, o *outcome) {
+		o.OnPath = true
+		if c.segs == nil || o.Kind != "err" || len(o.Locs) == 0 {
+			return
+		}
+		var data []byte
+		extOnly := false
+		if st, err := os.Stat(file); err == nil && st.IsDir() {
+			extOnly = true
+			for _, n := range []string{"ext.yml", "ext.json"} {
+				if d, err := os.ReadFile(filepath.Join(file, n)); err == nil {
+					data = d
+				}
+			}
+		} else {
+			data, _ = os.ReadFile(file)
+		}
+		pos, ok := focusPositions(data, c.segs)
+		if !ok {
+			return
+		}
+		o.OnPath = false
+		for _, x := range o.Locs {
+			if extOnly && !strings.HasPrefix(filepath.Base(x.File), "ext.") {
+				continue
+			}
+			if pos[[2]int{x.Line, x.Col}] {
+				o.OnPath = true
+			}
+		}
+	}
+	offPath := map[string][2]int{}
 	for i, c := range cases {
 		y := yo[i]
-		j := outcome{Kind: "na", Locs: []locRec{}}
+		j := outcome{Kind: "na", Locs: []locRec{}, OnPath: true}
 		if jout[i] != nil {
 			j = *jout[i]
+			onPath(c, c.jsonFile, &j)
+		}
+		onPath(c, c.yamlFile, &y)
+		if os.Getenv("VERIF_C11_ONPATH_STATS") != "" && (y.Kind == "err" && !y.Located || j.Kind == "err" && !j.Located) {
+			fmt.Fprintf(os.Stderr, "UNLOCATED %s %s %s y=%s/%v j=%s/%v %s || %s\n", c.spec, c.op, c.path, y.Kind, y.Located, j.Kind, j.Located, y.Msg, j.Msg)
+		}
+		if os.Getenv("VERIF_C11_ONPATH_STATS") != "" && y.Kind == "err" && len(y.Locs) > 0 {
+			st := offPath[c.op]
+			st[0]++
+			if !y.OnPath || !j.OnPath {
+				st[1]++
+				fmt.Fprintf(os.Stderr, "OFFPATH %s %s %s y=%v %d:%d j=%v %d:%d %s\n", c.spec, c.op, c.path, y.OnPath, y.Line, y.Col, j.OnPath, j.Line, j.Col, y.Msg)
+			}
+			offPath[c.op] = st
 		}
 		nLocs += len(y.Locs) + len(j.Locs)
 		for _, x := range append(append([]locRec{}, y.Locs...), j.Locs...) {
@@ -937,6 +1105,11 @@ func Check(r *core.Run) error {
 		}
 		if i%400 == 7 {
 			r.Sample(desc[len(desc)-1])
+		}
+	}
+	if os.Getenv("VERIF_C11_ONPATH_STATS") != "" {
+		for op, st := range offPath {
+			fmt.Fprintf(os.Stderr, "OFFPATH-STATS %s located=%d offpath=%d\n", op, st[0], st[1])
 		}
 	}
 	r.Cov("diagnostic_positions_judged", nLocs)
@@ -1010,7 +1183,8 @@ func Replay(r *core.Run, path string) error {
 	r.Sample(o)
 	r.Nontrivial("replay|" + o.Kind)
 	r.Nontrivial("replay")
-	line, _ := json.Marshal(map[string]any{"op": "bytes", "node": "doc", "y": o, "j": outcome{Kind: "na", Locs: []locRec{}}, "hasJson": false})
+	o.OnPath = true
+	line, _ := json.Marshal(map[string]any{"op": "bytes", "node": "doc", "y": o, "j": outcome{Kind: "na", Locs: []locRec{}, OnPath: true}, "hasJson": false})
 	vs, err := obs.Check(r, [][]byte{line}, obs.CheckOpts{Module: "GenOutcomeCheck", Cfg: obs.StdCfg("KnownDeviations = " + r.KnownSet())})
 	if err != nil {
 		return err
